@@ -137,8 +137,19 @@ func (x *c13) linkStores(g *IG) []linkStore {
 			continue
 		}
 		e := strings.TrimSuffix(strings.TrimPrefix(s.obj, "ObjectAt("), ")")
+		// the index value ObjectAt was called with (a link read at another time has
+		// the same name but is another value)
+		var sArg ssa.Value
+		if sb, _, ok := fieldOfAddr(s.st.Addr); ok {
+			if call, ok := strip(sb).(*ssa.Call); ok && m2callee(x.m, call) == x.objectAt && len(call.Common().Args) == 2 {
+				sArg = stripConv(call.Common().Args[1])
+			}
+		}
 		for _, t := range out {
 			if t.n == s.n || t.val != e || strings.HasPrefix(t.obj, "ObjectAt(") || t.obj+"."+t.field.Name() == e {
+				continue
+			}
+			if sArg == nil || stripConv(t.st.Val) != sArg {
 				continue
 			}
 			if ok, _ := g.MustPassBefore(s.n, func(k int) bool { return k == t.n }); !ok {
@@ -974,3 +985,5 @@ func (x *c13) lookupBounds() {
 		}
 	}
 }
+
+func m2callee(m *Module, call *ssa.Call) *ssa.Function { return m.callee(call.Common()) }
